@@ -5,7 +5,8 @@ META = dict(
     technique="explicit-state BFS over histories {logger RUN, write same, write different, write other field, push/append, "
               "restart, advance tick} on a real Logger+Log driven through its runner generator, files on an in-memory "
               "file system, step-by-step comparison with a reference model of the statement",
-    text="For each of the 7 rules x field selection {all, one}: breadth-first search, with canonical-state dedupe, over every history "
+    text="For each of the 7 rules x field selection {all, one} (plus, for change and update, logs with two - thorough also three - loggees, "
+         "each with its own write operation): breadth-first search, with canonical-state dedupe, over every history "
          "of up to 6 (quick) / 12 (thorough) operations after START from the alphabet {RUN, tick, write same value, write different "
          "value, write other field, push to deck / append to streak list (a proper entry, or the next of None, 0, '', {}, []), STOP+START "
          "restart (once)}, at most one logger send per tick "
@@ -13,7 +14,7 @@ META = dict(
          "the log file content on the in-memory file system must equal header + the records the statement promises; queue rules must "
          "leave the queue empty.  For streak and deck additionally the complete grid of queue contents of up to 3 (quick) / 4 (thorough) "
          "elements over {proper entry, None, 0, '', {}, []}, split in every way around an earlier run.",
-    note="One log with one loggee share of two fields; logger period is represented by which ticks carry a RUN (the Skedder only "
+    note="One log; one loggee share of two fields (change/update also with one or two further single-field loggees, thorough depth 9/8 there); logger period is represented by which ticks carry a RUN (the Skedder only "
          "decides when to send RUN); values cycle mod 3; writes use Share.update (the stamping write); bounded depth, not a proof.",
 )
 import json
@@ -40,10 +41,14 @@ def junk_value(name):
     return dict([("None", None), ("0", 0), ("''", ""), ("{}", {}), ("[]", [])])[name]
 
 
-def alphabet(rule):
+MULTI = dict(two=["y"], three=["y", "z"])       # field selections with further loggees (tags), one field each
+
+
+def alphabet(rule, sel="all"):
     if rule in QUEUE:
         return ["R", "T", "q", "j", "wb", "X"]      # j: push the next junk element (cycles through JUNK)
-    return ["R", "T", "ws", "wd", "wb", "X"]
+    extra = ["%sd" % t for t in MULTI.get(sel, [])]  # yd / zd: write a different value to that loggee
+    return ["R", "T", "ws", "wd", "wb"] + extra + ["X"]
 
 
 def kind_of(e):
@@ -80,7 +85,10 @@ class Ref:
         self.by_stamp = by_stamp     # classification model only, see Node.alt
         self.wstamp = 0.0            # stamp of the latest write (share created at 0.0)
         self.rstamp = None           # stamp of the latest record
-        self.fields = selected_fields(rule, sel)
+        self.sel = sel
+        self.fields = selected_fields(rule, "all" if sel in MULTI else sel)
+        self.others = list(MULTI.get(sel, []))      # tags of the further loggees
+        self.ov = dict((t, 0) for t in self.others)
         self.now = 0.0
         self.a = 0
         self.b = 0
@@ -95,12 +103,12 @@ class Ref:
         self.started = False
         self.sent = False            # a control was sent to the logger in this tick
         self.restarted = False
-        cols = ["%s.%s" % (TAG, f) for f in self.fields] if len(self.fields) > 1 else [TAG]
+        cols = (["%s.%s" % (TAG, f) for f in self.fields] if len(self.fields) > 1 else [TAG]) + self.others
         self.header = "text\t%s\t%s\n_time\t%s\n" % (RULENAME[rule], BASE, "\t".join(cols))
 
     def values(self):
         d = dict(a=self.a, b=self.b)
-        return [d[f] for f in self.fields]
+        return [d[f] for f in self.fields] + [self.ov[t] for t in self.others]
 
     def record(self, vals):
         line = "%s%s\n" % (self.now, "".join("\t%s" % (v,) for v in vals))
@@ -143,7 +151,7 @@ class Ref:
 
     def enabled(self):
         out = []
-        for op in alphabet(self.rule):
+        for op in alphabet(self.rule, self.sel):
             if op == "R" and self.sent:
                 continue
             if op == "X" and (self.sent or self.restarted):
@@ -175,6 +183,10 @@ class Ref:
             self.wstamp = self.now
         elif op == "wb":
             self.b = (self.b + 1) % 3
+            self.pending = True
+            self.wstamp = self.now
+        elif op in ("yd", "zd"):
+            self.ov[op[0]] = (self.ov[op[0]] + 1) % 3
             self.pending = True
             self.wstamp = self.now
         elif op == "q":
@@ -231,9 +243,11 @@ class Impl:
         self.fs = vfs.VFS()
         self.undo = vfs.install(self.fs)
         init = [("a", [] if rule == "streak" else 0), ("b", 0)]
-        self.w = vfs.LogWorld(self.fs, getattr(g, rule.upper()), fields=given_fields(rule, sel),
+        self.w = vfs.LogWorld(self.fs, getattr(g, rule.upper()),
+                              fields=given_fields(rule, "all" if sel in MULTI else sel),
                               share_init=init, tick=TICK, base=BASE, tag=TAG,
-                              logger_kw=dict(reuse=(sel == "all")))
+                              logger_kw=dict(reuse=(sel != "one")),
+                              more_loggees=[(t, "mc." + t, None, [("a", 0)]) for t in MULTI.get(sel, [])])
         self.npush = 0
         self.njunk = 0
 
@@ -260,6 +274,9 @@ class Impl:
             if self.rule == "deck":
                 return sh.push(self.odict([("a", n), ("b", 10 * n)]))
             return sh["a"].append(n)
+        if op in ("yd", "zd"):
+            o = w.shares["mc." + op[0]]
+            return o.update(a=(o["a"] + 1) % 3)
         if op == "j":
             return self.apply("j:" + JUNK[self.njunk % len(JUNK)])
         if op.startswith("j:"):
@@ -301,6 +318,7 @@ class Impl:
         return (w.logger.status, w.logger.desire, age(w.log.stamp), age(sh.stamp), age(w.logger.stamp),
                 tuple(kind_of(e) for e in a) if isinstance(a, list) else a, sh["b"],
                 tuple(kind_of(e) for e in sh.deck), lasts,
+                tuple((n, o["a"], age(o.stamp)) for n, o in sorted(w.shares.items()) if o is not sh),
                 w.log.first, w.log.file is not None and not w.log.file.closed)
 
 
@@ -350,7 +368,8 @@ def diverge(node, hist, part, stage):
     example = "fields=%s: %s" % (sel, ex_hist)
     replay = dict(rule=rule, fields=sel, history=list(hist), tick=TICK,
                   how="LogWorld(fs, rule, fields, share a/b) ; START/R/STOP = logger.runner.send(...) ; T = store.changeStamp(+tick) ; "
-                      "ws/wd/wb = share.update(a=same / a=(a+1)%3 / b=(b+1)%3) ; q = deck push(odict(a=n,b=10n)) / list append(n) ; "
+                      "ws/wd/wb = share.update(a=same / a=(a+1)%3 / b=(b+1)%3) ; yd/zd = the same on the further loggee shares mc.y / mc.z "
+                      "(fields=two/three: log.addLoggee(tag='y', loggee='mc.y'), ...) ; q = deck push(odict(a=n,b=10n)) / list append(n) ; "
                       "j:<v> = deck push(v) / list append(v) for v in None, 0, '', {}, [] ; j = the next of these in that order ; "
                       "X = STOP, T, START")
     if node.error:
@@ -507,6 +526,10 @@ def run():
     ck = core.Check("C22", "model_checking", META["technique"])
     maxlen = 3 if core.TIER == "quick" else 4
     items = [(r, s, depth) for r in RULES for s in ("all", "one")]
+    # logs with several loggees (the rules that loop over loggees): 2 loggees, thorough also 3
+    # (bounded lower in thorough: the alphabet has 7-8 operations and a much larger value space)
+    mdepth = dict(two=depth if core.TIER == "quick" else 9, three=8)
+    items += [(r, s, mdepth[s]) for r in ("change", "update") for s in (("two", "three") if core.TIER != "quick" else ("two",))]
     items += [("grid", r, s, maxlen) for r in QUEUE for s in ("all", "one")]
     parts = core.pmap(work_any, items)
     # keep, per group, the shortest (then lexicographically first) example over all shards
@@ -529,6 +552,8 @@ def run():
         "element that is not a non-empty mapping (None, 0, '', {}, []) produces is not defined by the statement: zero or one line with the "
         "run's stamp is accepted at its position, but the drain must continue past it.  streak: every element of the sequence, falsy or "
         "not, is one record formatted with %s",
+        "fields=two/three: the log has loggees x (fields a, b), y (and z), columns x.a x.b y (z); 'change' compares every logged column "
+        "with its last logged value, 'update' counts a stamped write to any loggee",
         "canonical state = logger status/desire, ages (in ticks) of log, share and logger stamps, share values, queue contents by element kind, last-logged values, "
         "file-open flags, plus the reference's own state; histories reaching the same canonical state are expanded once",
     ]
